@@ -149,7 +149,8 @@ Fixpoint tuple_de (args : list rty) (fs : list field) (l : list json) : option (
       if f_skip f then option_map (cons (DOk VUnit)) (tuple_de args fs' l)
       else match l with
            | x :: l' => option_map (cons (dt (rsubst args (f_serde_ty f)) x)) (tuple_de args fs' l')
-           | [] => None
+           | [] => if f_skip_none f then option_map (cons (DOk VNone)) (tuple_de args fs' [])   (* `#[serde(default)]`: a missing element *)
+                   else None
            end
   end.
 
